@@ -454,7 +454,7 @@ pub fn run(tier: &str, seed: u64) -> i32 {
     let mut report = Report::new("C16", tier, seed, "model_checking");
     let thorough = tier == "thorough";
     let depth = if thorough { 4 } else { 3 };
-    let wall = Duration::from_secs(if thorough { 1500 } else { 45 });
+    let wall = Duration::from_secs(if thorough { 1500 } else { 150 });
     let start = Instant::now();
     let alpha = alphabet();
     // BFS over abstract states; the representative history of a state is the first one that reached it
